@@ -50,6 +50,41 @@ type boxRealLine struct {
 	Id   int     `json:"id"`
 }
 
+type rotNearCase struct {
+	K    string `json:"k"`
+	A    []int  `json:"a"`
+	En   int    `json:"en"`
+	Ek   int    `json:"ek"`
+	Anti int    `json:"anti"`
+}
+
+// execRotNear: b is the unit vector at the angle en*10^-ek from a^ (or from
+// -a^), built with plain float arithmetic (not with the code under test); the
+// line records RotationTo(a^, b).Rotate(a^) - b as a residual.
+func execRotNear(c rotNearCase, id int) resLine {
+	ln := resLine{K: "res", Law: "C17.RotationToNear", Res: []int{}, Mag: 1, Id: id}
+	failed := guard(func() {
+		a := vi(c.A).Normalized()
+		e := vector3.New(1., 0., 0.) // the coordinate axis least aligned with a
+		if math.Abs(a.Y()) < math.Abs(a.X()) && math.Abs(a.Y()) <= math.Abs(a.Z()) {
+			e = vector3.New(0., 1., 0.)
+		} else if math.Abs(a.Z()) < math.Abs(a.X()) && math.Abs(a.Z()) < math.Abs(a.Y()) {
+			e = vector3.New(0., 0., 1.)
+		}
+		p := a.Cross(e).Normalized()
+		eps := float64(c.En) * math.Pow(10, -float64(c.Ek))
+		b := a.Scale(math.Cos(eps)).Add(p.Scale(math.Sin(eps))).Normalized()
+		if c.Anti != 0 {
+			b = b.Scale(-1)
+		}
+		ln.Res = residual3(quaternion.RotationTo(a, b).Rotate(a), b, &ln.Nan)
+	})
+	if failed {
+		ln.Nan = true
+	}
+	return ln
+}
+
 func rvec(r *rand.Rand, span float64) vector3.Float64 {
 	return vector3.New((r.Float64()*2-1)*span, (r.Float64()*2-1)*span, (r.Float64()*2-1)*span)
 }
